@@ -29,7 +29,7 @@ const tTerm = "TestTermination"
 
 type Case struct {
 	Construct string `json:"construct"`
-	Source    string `json:"source"` // slice | endless | stalled
+	Source    string `json:"source"` // slice | endless | stalled | failing (GenerateParallel / Map / ProcessParallel: n good items, then one call fails while the others block on their context)
 	N         int    `json:"n"`
 	Cut       int    `json:"cut"`
 	Stop      string `json:"stop"` // exhaust | close | cancel | close-cancel | cancel-close | close-twice | close-while-blocked | abandon
@@ -39,7 +39,7 @@ type Case struct {
 }
 
 // finite-only constructs take slices / maps as input
-var constructs = []string{"Split", "Buffer", "ParallelBuffer", "Map", "ProcessParallel", "GenerateParallel", "MergeIterators", "Chain", "MergeSlices", "MergeSliceIterators", "BufferedChannel", "dt.Map.Keys", "dt.Map.Values", "dt.Map.Iterator", "adt.Map.Keys", "adt.Map.Iterator"}
+var constructs = []string{"Split", "Buffer", "ParallelBuffer", "ParallelBuffer", "Map", "ProcessParallel", "GenerateParallel", "MergeIterators", "Chain", "MergeSlices", "MergeSliceIterators", "BufferedChannel", "dt.Map.Keys", "dt.Map.Values", "dt.Map.Iterator", "adt.Map.Keys", "adt.Map.Iterator"}
 
 func finiteOnly(c string) bool {
 	switch c {
@@ -74,11 +74,30 @@ func source(kind string, n int) *fun.Iterator[int] {
 	}
 }
 
+var errSourceFailed = errors.New("c04: the user function failed")
+
+// failingStep is the user function of a "failing" case: the first n calls
+// succeed, call n+1 fails, every later call honours its context by
+// blocking until it ends (a sibling parked in user code while the group is
+// stopped by the failure).
+func failingStep(ctx context.Context, c *Case, v int) error {
+	switch {
+	case v <= c.N:
+		vkit.Yield(c.Yield)
+		return nil
+	case v == c.N+1:
+		vkit.Yield(c.Yield)
+		return errSourceFailed
+	}
+	<-ctx.Done()
+	return ctx.Err()
+}
+
 type pipeline struct {
 	outs   []*fun.Iterator[int]
-	ch     <-chan int          // BufferedChannel
-	worker fun.Worker          // ProcessParallel
-	seen   *atomic.Int64       // items handed to the ProcessParallel function
+	ch     <-chan int    // BufferedChannel
+	worker fun.Worker    // ProcessParallel
+	seen   *atomic.Int64 // items handed to the ProcessParallel function
 }
 
 func build(c *Case, ctx context.Context) *pipeline {
@@ -105,9 +124,17 @@ func build(c *Case, ctx context.Context) *pipeline {
 	case "ParallelBuffer":
 		one(src().ParallelBuffer(w))
 	case "Map":
+		if c.Source == "failing" {
+			one(fun.Map(source("endless", 0), func(ctx context.Context, v int) (int, error) { return v, failingStep(ctx, c, v) }, fun.WorkerGroupConfNumWorkers(w)))
+			break
+		}
 		one(fun.Map(src(), func(_ context.Context, v int) (int, error) { vkit.Yield(c.Yield); return v, nil }, fun.WorkerGroupConfNumWorkers(w)))
 	case "ProcessParallel":
 		p.seen = &atomic.Int64{}
+		if c.Source == "failing" {
+			p.worker = source("endless", 0).ProcessParallel(func(ctx context.Context, v int) error { p.seen.Add(1); return failingStep(ctx, c, v) }, fun.WorkerGroupConfNumWorkers(w))
+			break
+		}
 		p.worker = src().ProcessParallel(func(context.Context, int) error { p.seen.Add(1); vkit.Yield(c.Yield); return nil }, fun.WorkerGroupConfNumWorkers(w))
 	case "GenerateParallel":
 		var i atomic.Int64
@@ -119,6 +146,8 @@ func build(c *Case, ctx context.Context) *pipeline {
 			case c.Source == "stalled" && v > c.N:
 				<-ctx.Done()
 				return 0, ctx.Err()
+			case c.Source == "failing":
+				return v, failingStep(ctx, c, v)
 			}
 			return v, ctx.Err()
 		})
@@ -215,6 +244,9 @@ func runCase(c *Case) (string, string) {
 		select {
 		case <-done:
 		case <-time.After(limit):
+			if c.Source == "failing" {
+				return "stuck-after-failure", fmt.Sprintf("ProcessParallel (abort mode, %d workers) has not returned %v after one call failed; the other calls block until their context ends (items seen: %d)", c.Width, limit, p.seen.Load())
+			}
 			return "stuck", fmt.Sprintf("ProcessParallel has not returned %v after %s (items seen: %d)", limit, c.Stop, p.seen.Load())
 		}
 		if left := vkit.NoFunGoroutines(limit); len(left) > 0 {
@@ -254,6 +286,9 @@ func runCase(c *Case) (string, string) {
 	for got < c.Cut || c.Stop == "exhaust" {
 		var err error
 		if !within(limit, func() { _, err = first.ReadOne(ctx) }) {
+			if c.Source == "failing" {
+				return "stuck-after-failure", fmt.Sprintf("%s (abort mode, %d workers): ReadOne %d blocks for %v after one call of the user function failed; the other calls block until their context ends", c.Construct, c.Width, got, limit)
+			}
 			return "stuck", fmt.Sprintf("%s: ReadOne %d blocks for %v although the source still has items", c.Construct, got, limit)
 		}
 		if err != nil {
@@ -263,7 +298,18 @@ func runCase(c *Case) (string, string) {
 		got++
 		vkit.Yield(c.Yield)
 	}
-	if c.Stop == "exhaust" && !errors.Is(lastErr, io.EOF) {
+	if c.Stop == "exhaust" && c.Source == "failing" {
+		// the failure ended the input; the iterator is then closed like
+		// any exhausted one
+		if k, why := func() (string, string) {
+			if !within(limit, func() { _ = first.Close() }) {
+				return "close-blocks", fmt.Sprintf("%s: Close() after the failure has not returned after %v", c.Construct, limit)
+			}
+			return "", ""
+		}(); why != "" {
+			return k, why
+		}
+	} else if c.Stop == "exhaust" && !errors.Is(lastErr, io.EOF) {
 		return "eof", fmt.Sprintf("%s: a finite input ended with %v after %d items, want io.EOF", c.Construct, lastErr, got)
 	}
 	closeAll := func(which []*fun.Iterator[int], tag string) (string, string) {
@@ -368,6 +414,12 @@ func genCase(t *rapid.T) *Case {
 	c.Stop = rapid.SampledFrom(stops).Draw(t, "stop")
 	if c.Stop == "exhaust" {
 		c.Source = "slice"
+		switch c.Construct {
+		case "GenerateParallel", "Map", "ProcessParallel":
+			if rapid.IntRange(0, 2).Draw(t, "failing") == 0 {
+				c.Source = "failing"
+			}
+		}
 	}
 	switch rapid.IntRange(0, 3).Draw(t, "cutKind") {
 	case 0:
@@ -406,11 +458,121 @@ func TestTermination(t *testing.T) {
 		mu.Lock()
 		defer mu.Unlock()
 		c := genCase(t)
-		for i := 0; i < reps; i++ {
+		n := reps
+		if c.Construct == "ParallelBuffer" && c.Stop != "exhaust" {
+			// several senders share one buffered pipe: the window in which
+			// an early stop meets two in-flight sends is narrow
+			n = reps * 12
+		}
+		for i := 0; i < n; i++ {
 			if k, why := runCase(c); why != "" {
 				vkit.Fail(t, tTerm, "C04:"+c.Construct+"/"+k, *c, "%s (repetition %d)", why, i)
 			}
 		}
-		vkit.CaseN(tTerm, vkit.Hash(*c), reps, (c.Cut > 0 && c.Cut < c.N) || c.Stop == "close-while-blocked", []string{"construct:" + c.Construct, "source:" + c.Source, "stop:" + c.Stop}, func() any { return *c })
+		vkit.CaseN(tTerm, vkit.Hash(*c), n, (c.Cut > 0 && c.Cut < c.N) || c.Stop == "close-while-blocked" || c.Source == "failing", []string{"construct:" + c.Construct, "source:" + c.Source, "stop:" + c.Stop}, func() any { return *c })
+	})
+}
+
+// ---------------------------------------------------------------------
+// Close racing the first read: "a consumer blocked in Next/ReadOne returns
+// promptly after Close" also covers the consumer whose first ReadOne starts
+// at the very moment Close is called - it must return (a value, io.EOF or a
+// context error), not panic.
+
+const tCloseRace = "TestCloseRacesFirstRead"
+
+type raceCase struct {
+	Construct string `json:"construct"`
+	N         int    `json:"n"`
+	Width     int    `json:"width"`
+	Readers   int    `json:"readers"`
+	Spin      []int  `json:"spin"` // busy iterations before the Close / each reader's first ReadOne
+	Procs     int    `json:"gomaxprocs"`
+}
+
+func runCloseRace(c *raceCase, reps int) (string, string) {
+	if c.Procs > 0 {
+		old := runtime.GOMAXPROCS(c.Procs)
+		defer runtime.GOMAXPROCS(old)
+	}
+	limit := vkit.Limit()
+	for rep := 0; rep < reps; rep++ {
+		ctx, cancel := context.WithCancel(context.Background())
+		p := build(&Case{Construct: c.Construct, Source: "slice", N: c.N, Width: c.Width}, ctx)
+		it := p.outs[0]
+		var wg sync.WaitGroup
+		start := make(chan struct{})
+		var panicked atomic.Value
+		spin := func(n int) {
+			for i := 0; i < n*20; i++ {
+				runtime.KeepAlive(i)
+			}
+		}
+		for r := 0; r < c.Readers; r++ {
+			wg.Add(1)
+			go func(r int) {
+				defer wg.Done()
+				defer func() {
+					if e := recover(); e != nil {
+						panicked.Store(fmt.Sprintf("%v", e))
+					}
+				}()
+				<-start
+				spin(c.Spin[(r+1)%len(c.Spin)])
+				_, _ = it.ReadOne(ctx)
+			}(r)
+		}
+		wg.Add(1)
+		go func() {
+			defer wg.Done()
+			<-start
+			spin(c.Spin[0])
+			for _, o := range p.outs {
+				_ = o.Close()
+			}
+		}()
+		close(start)
+		if !within(limit, wg.Wait) {
+			cancel()
+			return "consumer-stuck", fmt.Sprintf("%s: a first ReadOne racing Close has not returned after %v (repetition %d)", c.Construct, limit, rep)
+		}
+		cancel()
+		if e, _ := panicked.Load().(string); e != "" {
+			return "close-race-panic", fmt.Sprintf("%s: the first ReadOne, racing Close, panicked: %s (repetition %d)", c.Construct, e, rep)
+		}
+	}
+	if left := vkit.NoFunGoroutines(limit); len(left) > 0 {
+		return "leak", fmt.Sprintf("%s: %d library goroutines are still alive after Close raced the first read:\n%s", c.Construct, len(left), stacks(left))
+	}
+	return "", ""
+}
+
+func TestCloseRacesFirstRead(t *testing.T) {
+	var rc raceCase
+	if ok, err := vkit.ReplayCase(tCloseRace, &rc); err != nil {
+		t.Fatal(err)
+	} else if ok {
+		if k, why := runCloseRace(&rc, vkit.Pick(20000, 100000)); why != "" {
+			vkit.Fail(t, tCloseRace, "C04:"+k, rc, "%s", why)
+		}
+		return
+	}
+	reps := vkit.Pick(150, 400)
+	rapid.Check(t, func(t *rapid.T) {
+		if vkit.AlreadyFailed(tCloseRace) {
+			return
+		}
+		c := &raceCase{
+			Construct: rapid.SampledFrom([]string{"Split", "Buffer", "ParallelBuffer", "Map", "GenerateParallel", "MergeIterators", "Chain", "MergeSlices", "dt.Map.Keys", "adt.Map.Keys"}).Draw(t, "construct"),
+			N:         rapid.IntRange(0, 6).Draw(t, "n"),
+			Width:     rapid.IntRange(1, 3).Draw(t, "width"),
+			Readers:   rapid.IntRange(1, 3).Draw(t, "readers"),
+			Spin:      rapid.SliceOfN(rapid.IntRange(0, 40), 2, 4).Draw(t, "spin"),
+			Procs:     rapid.SampledFrom([]int{2, 4, 16}).Draw(t, "gomaxprocs"),
+		}
+		if k, why := runCloseRace(c, reps); why != "" {
+			vkit.Fail(t, tCloseRace, "C04:"+k, *c, "%s", why)
+		}
+		vkit.CaseN(tCloseRace, vkit.Hash(*c), reps, true, []string{"construct:" + c.Construct}, func() any { return *c })
 	})
 }
